@@ -216,6 +216,14 @@ fn check_case(ctx: &mut Ctx, rng: &mut Rng, case: &Case, perms: usize, case_seed
         ctx.violation("C10.decoded_cells".into(), "C10.decoded_cells", format!("msg {}: decoded cells {:?}, masks say {:?}", n, cells, exp_cells), rp());
         return;
     }
+    // frames in which a listed satellite or signal has no cell at all are legal on the wire (the decoder accepts
+    // them) but have no message form the encoder takes: they are judged on the decoded lists only
+    let cover = r.sats.iter().all(|s| r.cells.iter().any(|c| c.0 == *s)) && r.sigs.iter().all(|g| r.cells.iter().any(|c| c.1 == *g));
+    if !cover {
+        ctx.count("frames_with_an_empty_row_or_column_decode_only");
+        ctx.nontrivial(mix(case_seed, 0xE0 ^ n as u64));
+        return;
+    }
     // (2) permutations re-encode to the identical frame
     let mut h = mix(case_seed, n as u64);
     for pi in 0..perms {
@@ -649,9 +657,27 @@ pub fn run(p: &Params) -> Outcome {
             let (s, g, c) = random_triple(&mut rng, &table);
             let case = Case { n, s: &s, g: &g, c: &c };
             check_case(ctx, &mut rng, &case, perms, mix(seed ^ 0xABCD, (j as u64) << 24 | i as u64));
+            if i % 3 == 0 && (s.len() > 1 || g.len() > 1) {
+                // the same masks with one satellite's row (or one signal's column, or both) emptied: listed in the
+                // mask, no cell -- the rows behind it must still be read where they are
+                let vs = *rng.pick(&s);
+                let vg = *rng.pick(&g);
+                let c2: Vec<(u8, u8)> = match rng.below(3) {
+                    0 if s.len() > 1 => c.iter().copied().filter(|x| x.0 != vs).collect(),
+                    1 if g.len() > 1 => c.iter().copied().filter(|x| x.1 != vg).collect(),
+                    _ => c.iter().copied().filter(|x| x.0 != vs && x.1 != vg).collect(),
+                };
+                if !c2.is_empty() && c2.len() < c.len() {
+                    let case = Case { n, s: &s, g: &g, c: &c2 };
+                    check_case(ctx, &mut rng, &case, 0, mix(seed ^ 0xEEEE, (j as u64) << 24 | i as u64));
+                }
+            }
         }
     });
     total.exhaustive_parts.push("all (S,G,C) with S within satellites 1..3, G within the first 3 table signals, every satellite and signal used, for each of the MSM numbers".into());
+    if total.get("frames_with_an_empty_row_or_column_decode_only") == 0 {
+        total.inconclusive("no frame with an empty row or column was decoded".into());
+    }
     for f in FAULTS.iter() {
         if total.get(&format!("fault:{}", f)) == 0 {
             total.inconclusive(format!("fault class {} never injected", f));
@@ -662,7 +688,7 @@ pub fn run(p: &Params) -> Outcome {
     }
     Outcome {
         ctx: total,
-        rule: "for every MSM number: exhaustive small scopes + random (S,G,C) up to 64 cells incl. 64x1, 1x|table|, 8x8; frame built by the reference writer from msm_ref with random field bits; oracle: decoded rows ascending / row-major with SigRef descriptors, every permutation of the satellite and cell lists re-encodes to the identical frame (masks reported separately), one injected fault per class => the matching error; non-trivial = each (case, permutation); distinct by hash".into(),
+        rule: "for every MSM number: exhaustive small scopes + random (S,G,C) up to 64 cells incl. 64x1, 1x|table|, 8x8; frame built by the reference writer from msm_ref with random field bits; frames whose masks list a satellite or signal without any cell (decode side only); oracle: decoded rows ascending / row-major with SigRef descriptors, every permutation of the satellite and cell lists re-encodes to the identical frame (masks reported separately), one injected fault per class => the matching error; non-trivial = each (case, permutation); distinct by hash".into(),
         exhaustive: false,
         extra: json!({"msm_numbers": msm2.len()}),
     }
